@@ -6,7 +6,8 @@ From TucModel Require Import Base.Bytes Base.ListX Model.Bounds Model.Scan Model
   Model.CutBytes Model.CutStr Proofs.BoundsFacts Proofs.C06
   Tie.RsPrelude Tie.TieBase Tie.RsOpt Tie.RsStr Tie.RsList Tie.RsScan Tie.RsRegex Tie.RsCut
   Tie.Gen_ub_try_into_range Tie.Bridge_ub_try_into_range
-  Tie.Gen_maybe_replace Tie.Bridge_maybe_replace
+  Tie.Gen_maybe_replace Tie.Bridge_maybe_replace Tie.CutStrFacts
+  Tie.Gen_ubl_unpack Tie.Bridge_ubl_unpack Tie.Gen_ubl_complement Tie.Bridge_ubl_complement Tie.Bridge_ubl_has_negative_indices
   Tie.Gen_trim Tie.Bridge_trim Tie.Gen_fill_fields Tie.Bridge_fill_fields Tie.Gen_compress_delimiter Tie.Bridge_compress_delimiter
   Tie.Gen_cut_str.
 Import ListNotations.
@@ -186,34 +187,128 @@ Proof.
   - exact I.
 Qed.
 
-(** from the table of fields on: -s on a record without a delimiter, then the output loop over the
-    bounds as given (no -m, no --json: the bounds are neither complemented nor unpacked) *)
-Lemma s10_spec (o : opt) (line : bytes) (fields : list mtch) stdout buf eol lh sb d :
-  o_regex o = None -> o_complement o = false -> o_json o = false -> o_btype o <> BChars ->
+(** what the model's [cut_str] does once the table of fields is known and -s has had its say:
+    -m, the unpacking of ranges for --json, the output loop, the brackets and the EOL *)
+Definition unpack_wanted (o : opt) : bool :=
+  o_json o || (btype_eqb (o_btype o) BChars && match o_replace o with Some _ => true | None => false end).
+
+Definition tail2 (o : opt) (line : bytes) (fields : list mtch) (bs1 : list bof) : rres :=
+  let b2 : option (list bof) :=
+    if unpack_wanted o && needs_unpack bs1
+    then match unpack_list bs1 (length fields) with Some l => Some (items l) | None => None end
+    else Some bs1 in
+  match b2 with
+  | None => RPanic
+  | Some bs2 =>
+      match out_loop o line fields bs2 with
+      | ROk body => ROk ((if o_json o then [ch_lbracket] else []) ++ body ++ (if o_json o then [ch_rbracket] else []) ++ [o_eol o])
+      | e => e
+      end
+  end.
+
+Definition tail_model (o : opt) (line : bytes) (fields : list mtch) : rres :=
+  let b1 : option (list bof) :=
+    if o_complement o then match complement_list (items (o_bounds o)) (length fields) with Some l => Some (items l) | None => None end
+    else Some (items (o_bounds o)) in
+  match b1 with
+  | None => RErr
+  | Some bs1 => tail2 o line fields bs1
+  end.
+
+Lemma item_nz_left : forall l : list bof, Forall item_nz l -> Forall item_left_nz l.
+Proof.
+  intros l H. eapply Forall_impl; [|exact H]. intros [b|f] Hx; [|exact I]. destruct Hx as [Hl _].
+  cbn [item_left_nz]. destruct (bl b); cbn in *; congruence.
+Qed.
+
+(** [gen_cut_str_s17]: the unpacking of ranges, then the loop *)
+Lemma s17_spec (o : opt) (line : bytes) (fields : list mtch) stdout buf lh sb d (b1 u : ublist) :
+  o_regex o = None -> Forall item_nz (items u) -> Z.of_nat (length fields) <= i32_max ->
+  let g := gen_cut_str_s17 line o stdout (map mz fields) buf [o_eol o] lh sb d (Z.of_nat (length fields)) b1 u in
+  match (if unpack_wanted o && needs_unpack (items u)
+         then match unpack_list (items u) (length fields) with Some l => Some (items l) | None => None end
+         else Some (items u)) with
+  | None => g = Panic
+  | Some bs2 => match out_loop o line fields bs2 with
+                | ROk r => g = Ret (Some tt, stdout ++ r ++ s19_out o [o_eol o])
+                | RErr => exists p, g = Ret (None, p)
+                | RPanic => g = Panic
+                | RHang => True
+                end
+  end.
+Proof.
+  intros Hre Hnz Hn g. subst g. cbv beta delta [gen_cut_str_s17] iota zeta. fold (unpack_wanted o).
+  destruct (unpack_wanted o); cbn [andb].
+  - unfold to_list, iter_ublist.
+    match goal with |- context [anyM ?F _] =>
+      rewrite (anyM_spec F (fun x => match x with
+                                     | Bound b => negb (side_eqb (bl b) (br b)) || side_eqb (bl b) SCont
+                                     | Filler _ => false end)) end.
+    2:{ intros [[l r la fb]|f]; reflexivity. }
+    cbn [bind]. fold (needs_unpack (items u)). destruct (needs_unpack (items u)).
+    + rewrite tie_ubl_unpack by (try exact Hn; apply item_nz_left, Hnz). unfold of_opt.
+      destruct (unpack_list (items u) (length fields)) as [v|] eqn:Ev; [|reflexivity]. cbn [bind].
+      pose proof (unpack_list_nz _ _ _ Ev Hnz) as Hv. destruct v as [bs lf]. cbn [items] in *.
+      exact (s18_spec o line fields stdout buf [o_eol o] lh sb d (mkL bs lf) bs lf Hre Hv Hn).
+    + destruct u as [bs lf]. cbn [items] in *.
+      exact (s18_spec o line fields stdout buf [o_eol o] lh sb d b1 bs lf Hre Hnz Hn).
+  - destruct u as [bs lf]. cbn [items] in *.
+    exact (s18_spec o line fields stdout buf [o_eol o] lh sb d b1 bs lf Hre Hnz Hn).
+Qed.
+
+(** from the table of fields on: -s on a record without a delimiter, --json's bracket, -m, the rest *)
+Lemma s10_spec (o : opt) (line : bytes) (fields : list mtch) buf lh sb d :
+  o_regex o = None -> o_btype o <> BChars ->
   Forall item_nz (items (o_bounds o)) -> Z.of_nat (length fields) <= i32_max ->
-  let g := gen_cut_str_s10 line o stdout (map mz fields) buf eol lh sb d in
-  if (o_only_delimited o && Nat.eqb (length fields) 1)%bool then g = Ret (Some tt, stdout)
-  else match out_loop o line fields (items (o_bounds o)) with
-       | ROk r => g = Ret (Some tt, stdout ++ r ++ eol)
+  let g := gen_cut_str_s10 line o [] (map mz fields) buf [o_eol o] lh sb d in
+  if (o_only_delimited o && Nat.eqb (length fields) 1)%bool then g = Ret (Some tt, [])
+  else match tail_model o line fields with
+       | ROk r => g = Ret (Some tt, r)
        | RErr => exists p, g = Ret (None, p)
        | RPanic => g = Panic
        | RHang => True
        end.
 Proof.
-  intros Hre Hc Hj Hb Hnz Hn g. subst g.
+  intros Hre Hb Hnz Hn g. subst g.
   cbv beta delta [gen_cut_str_s10 gen_cut_str_s11 gen_cut_str_s12] iota zeta.
   assert (Eb : btype_eqb (o_btype o) BChars = false) by (destruct (o_btype o); try reflexivity; exfalso; apply Hb; reflexivity).
   rewrite Eb. cbn [andb]. rewrite map_length.
-  destruct (o_only_delimited o); cbn [andb].
-  - destruct (Z.eqb_spec (Z.of_nat (length fields)) 1) as [E|E]; destruct (Nat.eqb_spec (length fields) 1) as [E'|E']; try lia; [reflexivity|].
-    cbv beta delta [gen_cut_str_s13 gen_cut_str_s14 gen_cut_str_s15 gen_cut_str_s16 gen_cut_str_s17] iota zeta.
-    rewrite Hj, Hc, Eb. cbn [orb andb]. destruct (o_bounds o) as [bs lf]. cbn [items] in *.
-    pose proof (s18_spec o line fields stdout buf eol lh sb d (mkL [] SCont) bs lf Hre Hnz Hn) as H.
-    unfold s19_out in H. rewrite Hj in H. cbn [app] in H. exact H.
-  - cbv beta delta [gen_cut_str_s13 gen_cut_str_s14 gen_cut_str_s15 gen_cut_str_s16 gen_cut_str_s17] iota zeta.
-    rewrite Hj, Hc, Eb. cbn [orb andb]. destruct (o_bounds o) as [bs lf]. cbn [items] in *.
-    pose proof (s18_spec o line fields stdout buf eol lh sb d (mkL [] SCont) bs lf Hre Hnz Hn) as H.
-    unfold s19_out in H. rewrite Hj in H. cbn [app] in H. exact H.
+  assert (Main : match tail_model o line fields with
+                 | ROk r => gen_cut_str_s13 line o [] (map mz fields) buf [o_eol o] lh sb d (Z.of_nat (length fields)) = Ret (Some tt, r)
+                 | RErr => exists p, gen_cut_str_s13 line o [] (map mz fields) buf [o_eol o] lh sb d (Z.of_nat (length fields)) = Ret (None, p)
+                 | RPanic => gen_cut_str_s13 line o [] (map mz fields) buf [o_eol o] lh sb d (Z.of_nat (length fields)) = Panic
+                 | RHang => True
+                 end).
+  { cbv beta delta [gen_cut_str_s13 gen_cut_str_s14 gen_cut_str_s15 gen_cut_str_s16] iota zeta. unfold tail_model.
+    set (out0 := if o_json o then [] ++ [91%N] else []).
+    assert (Eo : out0 = (if o_json o then [ch_lbracket] else [])) by (unfold out0; destruct (o_json o); reflexivity).
+    assert (Hs17 : forall (b1 u : ublist), Forall item_nz (items u) ->
+              match tail2 o line fields (items u) with
+              | ROk r => gen_cut_str_s17 line o out0 (map mz fields) buf [o_eol o] lh sb d (Z.of_nat (length fields)) b1 u = Ret (Some tt, r)
+              | RErr => exists p, gen_cut_str_s17 line o out0 (map mz fields) buf [o_eol o] lh sb d (Z.of_nat (length fields)) b1 u = Ret (None, p)
+              | RPanic => gen_cut_str_s17 line o out0 (map mz fields) buf [o_eol o] lh sb d (Z.of_nat (length fields)) b1 u = Panic
+              | RHang => True
+              end).
+    { intros b1 u Hu. pose proof (s17_spec o line fields out0 buf lh sb d b1 u Hre Hu Hn) as H. cbv zeta in H.
+      unfold s19_out in H. unfold tail2.
+      destruct (if unpack_wanted o && needs_unpack (items u)
+                then match unpack_list (items u) (length fields) with Some l => Some (items l) | None => None end
+                else Some (items u)) as [bs2|]; [|exact H].
+      destruct (out_loop o line fields bs2); exact H. }
+    assert (Hg : (if o_json o
+                  then gen_cut_str_s16 line o ([] ++ [91%N]) (map mz fields) buf [o_eol o] lh sb d (Z.of_nat (length fields)) (mkL [] SCont) (o_bounds o)
+                  else gen_cut_str_s16 line o [] (map mz fields) buf [o_eol o] lh sb d (Z.of_nat (length fields)) (mkL [] SCont) (o_bounds o))
+                 = gen_cut_str_s16 line o out0 (map mz fields) buf [o_eol o] lh sb d (Z.of_nat (length fields)) (mkL [] SCont) (o_bounds o))
+      by (unfold out0; destruct (o_json o); reflexivity).
+    cbv beta delta [gen_cut_str_s16] iota zeta in Hg. rewrite Hg. clear Hg.
+    destruct (o_complement o).
+    - rewrite tie_ubl_complement by (try exact Hn; apply item_nz_left, Hnz). cbn [bind].
+      destruct (complement_list (items (o_bounds o)) (length fields)) as [u|] eqn:Eu; [|eexists; reflexivity].
+      pose proof (complement_list_nonempty _ _ _ Eu) as Hne. destruct (items u) as [|x0 xs] eqn:Ei; [contradiction|].
+      rewrite <- Ei. apply Hs17. apply (complement_list_nz _ _ _ Eu Hnz).
+    - apply Hs17. exact Hnz. }
+  destruct (o_only_delimited o); cbn [andb]; [|exact Main].
+  destruct (Z.eqb_spec (Z.of_nat (length fields)) 1) as [E|E]; destruct (Nat.eqb_spec (length fields) 1) as [E'|E']; try lia; [reflexivity | exact Main].
 Qed.
 
 (** the record after -t, after -p, and its table of fields *)
@@ -282,14 +377,14 @@ Definition of_rres_cut (r : option rres) (x : rs (option unit * bytes)) : Prop :
   end.
 
 Theorem tie_cut_str_literal : forall (o : opt) (line0 : bytes) (fields0 : list (Z * Z)) (buf0 : list byte),
-  o_regex o = None -> o_complement o = false -> o_json o = false -> o_btype o <> BChars ->
+  o_regex o = None -> o_btype o <> BChars ->
   Forall item_nz (items (o_bounds o)) ->
   Z.of_nat (length line0) + Z.of_nat (length (o_delim o)) <= usize_max ->
   Z.of_nat (length (line2 o (line1 o line0))) + Z.of_nat (length (o_delim o)) <= usize_max ->
   Z.of_nat (length (line2 o (line1 o line0))) + 2 <= i32_max ->
   of_rres_cut (cut_str o line0) (gen_cut_str line0 o fields0 buf0 [o_eol o]).
 Proof.
-  intros o line0 fields0 buf0 Hre Hc Hj Hb Hnz H0 H2 Hf'.
+  intros o line0 fields0 buf0 Hre Hb Hnz H0 H2 Hf'.
   assert (Hf : Z.of_nat (length (fields_lit o (line2 o (line1 o line0)))) <= i32_max).
   { pose proof (fields_lit_count o (line2 o (line1 o line0))). lia. }
   assert (H1 : Z.of_nat (length (line1 o line0)) + Z.of_nat (length (o_delim o)) <= usize_max).
@@ -341,11 +436,23 @@ Proof.
     - unfold model_fill_greedy. cbn [bind]. reflexivity.
     - rewrite tie_fill_fields by exact H2. cbn [bind]. reflexivity. }
   rewrite Hg; clear Hg.
-  (* -s, the bounds, the output loop *)
-  pose proof (s10_spec o l2 fields [] buf1 [o_eol o] [] false (o_delim o) Hre Hc Hj Hb Hnz Hf) as H10. cbv zeta in H10.
-  rewrite Hc, Hj. cbn [orb andb].
+  (* -s, -m, the unpacking, the output loop *)
+  pose proof (s10_spec o l2 fields buf1 [] false (o_delim o) Hre Hb Hnz Hf) as H10. cbv zeta in H10.
   destruct (o_only_delimited o && Nat.eqb (length fields) 1)%bool; [exact H10|].
-  destruct (out_loop o l2 fields (items (o_bounds o))) as [r| | |]; cbn [of_rres_cut app] in *; try exact H10; exact I.
+  fold (unpack_wanted o).
+  assert (Et : forall X : option rres, X = Some (tail_model o l2 fields) -> of_rres_cut X (gen_cut_str_s10 l2 o [] (map mz fields) buf1 [o_eol o] [] false (o_delim o))).
+  { intros X ->. destruct (tail_model o l2 fields); cbn [of_rres_cut]; try exact H10; exact I. }
+  apply Et. unfold tail_model, tail2, unpack_wanted. rewrite Eb.
+  destruct (o_complement o).
+  - destruct (complement_list (items (o_bounds o)) (length fields)) as [u|]; [|reflexivity].
+    match goal with |- context [if ?c then _ else _] => destruct c end.
+    + destruct (unpack_list (items u) (length fields)) as [v|]; [|reflexivity].
+      destruct (out_loop o l2 fields (items v)); reflexivity.
+    + destruct (out_loop o l2 fields (items u)); reflexivity.
+  - match goal with |- context [if ?c then _ else _] => destruct c end.
+    + destruct (unpack_list (items (o_bounds o)) (length fields)) as [v|]; [|reflexivity].
+      destruct (out_loop o l2 fields (items v)); reflexivity.
+    + destruct (out_loop o l2 fields (items (o_bounds o))); reflexivity.
 Qed.
 
 Definition tie_cut_str := tie_cut_str_literal.
